@@ -1,6 +1,7 @@
 -- FAMILIES: bfe=TF.Drv.BField.bfe xfe=TF.Drv.BField.xfe
 import TF.Drv.Proto
 import TF.Model.BField
+import TF.Gen.BFieldLoops
 import TF.Model.XField
 import TF.Model.XFieldInv
 import TF.Spec.Field
@@ -14,6 +15,19 @@ def okI (n : Int) : String := s!"ok:{n}"
 def okOpt : Option Nat → String
   | some n => s!"ok:{n}"
   | none => "panic"
+
+/-- the hand model's reply next to the reply of the definition **regenerated from source** (`TF.Gen.Loops.bfe_*`, written by
+    tools/rs2lean_bfe.py): a difference is printed instead of the value, so a translator bug (or a hand model that
+    drifted from the code) shows up as a disagreement with the implementation on the unchanged tree -/
+def both (gen model : String) : String :=
+  if gen == model then model else "GEN-MISMATCH gen=" ++ gen ++ " model=" ++ model
+
+/-- reply of a regenerated function: `panic` when its `_ok` flag is false (an `assert!` fails / a plain operation
+    overflows), `diverge` when it runs out of fuel -/
+def genReply (ok : Bool) (r : Option Nat) : String :=
+  if !ok then "panic" else match r with
+    | some v => s!"ok:{v}"
+    | none => "diverge"
 
 def bits? : String → Option (Bool × Nat)
   | "u8" => some (false, 8) | "u16" => some (false, 16) | "u32" => some (false, 32) | "usize" => some (false, 64)
@@ -30,10 +44,10 @@ def bfe : Handler
   | "sub", [.nat a, .nat b] => okN (bfe_sub a b)
   | "mul", [.nat a, .nat b] => okN (bfe_mul a b)
   | "neg", [.nat a] => okN (BF.neg a)
-  | "inv", [.nat a] => okOpt (BF.inverse a)
+  | "inv", [.nat a] => both (genReply (Loops.bfe_inverse_ok a) (Loops.bfe_inverse a)) (okOpt (BF.inverse a))
   | "inv0", [.nat a] => okN (BF.inverseOrZero a)
   | "div", [.nat a, .nat b] => okOpt (BF.div a b)
-  | "pow", [.nat a, .nat e] => okN (BF.modPow a e)
+  | "pow", [.nat a, .nat e] => both (genReply (Loops.bfe_mod_pow_ok a e) (Loops.bfe_mod_pow a e)) (okN (BF.modPow a e))
   | "from_u128", [.nat x] => okN (BF.fromU128 x)
   | "from_i64", [x] => x.int?.map fun v => okN (BF.fromI64 v)
   | "to_i64", [.nat a] => okI (BF.toI64 a)
@@ -47,7 +61,10 @@ def bfe : Handler
       | some r => "ok:" ++ fmtList r
       | none => "panic"
   | "sum", [xs] => xs.natList?.map fun l => okN (BF.sum l)
-  | "pacc", [.nat m, .nat base, .nat tail] => okN (BF.powerAccumulator m base tail)
+  | "pacc", [.nat m, .nat base, .nat tail] =>
+      both (genReply (Loops.bfe_power_accumulator_ok 1 m [base] [tail])
+          ((Loops.bfe_power_accumulator 1 m [base] [tail]).bind fun l => l.head?))
+        (okN (BF.powerAccumulator m base tail))
   | "eq", [.nat a, .nat b] => some ("ok:" ++ fmtBool (bfe_value a == bfe_value b))
   | op, args => TF.Drv.BFieldMore.bfeMore op args     -- C01 growth ops (TF/Drv/BFieldMore.lean)
 
